@@ -24,7 +24,13 @@ Judge(e) ==
                  /\ \A k \in 1..Len(e.classes) : \A a \in ToSet(e.classes[k]) : <<a, k>> \in toRed)
 Init == l = 1
 Next == /\ l <= Len(Rec) /\ l' = l + 1
-        /\ LET e == Rec[l] IN IF e.ev = "equiv" THEN Judge(e) ELSE TRUE
+        /\ LET e == Rec[l] IN
+           IF e.ev = "equiv" THEN Judge(e)
+           ELSE IF e.ev = "equivbig"
+                THEN /\ Report("C19:returns", e.res = "ok")
+                     /\ e.res = "ok" => /\ Report("C19:classes_partition_arguments", e.partition_ok)
+                                         /\ Report("C19:mappings_total_and_inverse", e.inverse_ok /\ e.total_ok)
+                ELSE TRUE
 Spec == Init /\ [][Next]_l
 Consumed == TLCGet("stats").diameter - 1 = Len(Rec) \/ PrintT(<<"UNCONSUMED", TLCGet("stats").diameter, Len(Rec)>>)
 =============================================================================
